@@ -1,6 +1,7 @@
 package c20
 
 import (
+	"errors"
 	"strings"
 	"testing"
 )
@@ -61,4 +62,63 @@ func FuzzXML(f *testing.F) {
 		}
 		runCase(t, &Case{Target: target, Doc: doc})
 	})
+}
+
+// FuzzDeviceNotification: a gNMI update as a device sends it - path string, value kind and payload - decoded into
+// the structured case of the "notif" target (conversion, JSON expansion, key expansion).
+func FuzzDeviceNotification(f *testing.F) {
+	kinds := []string{"string", "json", "json_ietf", "ascii", "int", "uint", "bool", "decimal", "double", "bytes", "leaflist", "none", "nil", "empty", "proto", "any"}
+	seeds := []struct {
+		path string
+		kind uint8
+		val  string
+	}{
+		{"/plain/descr", 0, "x"}, {"/plain", 1, `{"descr":"x","l1":[{"name":"a","mtu":1}]}`}, {"/plain/l1[name=a]", 2, `{"mtu":"7","tags":["a"]}`}, {"/plain/tags", 1, `["a","b"]`},
+		{"/plain/pres", 1, `{}`}, {"/plain/pres", 1, `{"inner":"x"}`}, {"/types/u64", 1, `18446744073709551615`}, {"/types/emp", 2, `[null]`}, {"/types/d3", 3, "1.5"},
+		{"/plain/l1[name=a]/tags[tags=x]", 11, ""}, {"/plain/l1", 1, `[{"name":"a"}]`}, {"/plain/l2a[a=x]", 1, `{"b":"y","v":"z"}`}, {"/types/idr", 2, `"verif-ids:red"`},
+		{"/plain/il[id=red]", 2, `{"id":"verif-ids:red","v":"x"}`}, {"/plain", 1, ``}, {"/plain", 1, `null`}, {"/plain/descr", 1, `{"a":1}`}, {"/state/counter", 5, "7"},
+	}
+	for _, s := range seeds {
+		f.Add(s.path, s.kind, s.val, int64(0))
+	}
+	f.Fuzz(func(t *testing.T, path string, kind uint8, val string, num int64) {
+		p, err := parseFuzzPath(path)
+		if err != nil {
+			return
+		}
+		k := kinds[int(kind)%len(kinds)]
+		tv := TV{Kind: k, S: val, I: num, U: uint64(num), F: float64(num) / 8}
+		if k == "leaflist" {
+			tv.Elems = []TV{{Kind: "string", S: val}, {Kind: "int", I: num}}
+		}
+		runCase(t, &Case{Target: "notif", Updates: []Upd{{Path: p, Val: tv}}})
+	})
+}
+
+var errBadFuzzPath = errors.New("bad fuzz path")
+
+// parseFuzzPath: "/a/b[k=v]/c" into path elements (harness-side, deliberately simple: no escapes).
+func parseFuzzPath(s string) ([]PElem, error) {
+	var res []PElem
+	for _, part := range strings.Split(strings.Trim(s, "/"), "/") {
+		if part == "" {
+			continue
+		}
+		pe := PElem{}
+		if i := strings.Index(part, "["); i >= 0 {
+			pe.Name = part[:i]
+			pe.Keys = map[string]string{}
+			for _, kv := range strings.Split(strings.TrimSuffix(part[i+1:], "]"), "][") {
+				k, v, ok := strings.Cut(kv, "=")
+				if !ok {
+					return nil, errBadFuzzPath
+				}
+				pe.Keys[k] = v
+			}
+		} else {
+			pe.Name = part
+		}
+		res = append(res, pe)
+	}
+	return res, nil
 }
